@@ -52,6 +52,22 @@ def table(facts, parallel):
     def add(family, ident, body, checks):
         T.append((family, ident, body, checks))
 
+    # anchors are resolved per entry: a missing one is reported for that entry only
+    class _Missing(object):
+        def __init__(self, msg):
+            self.msg = msg
+
+    def _lazy(fn):
+        def wrapped(*a, **kw):
+            try:
+                return fn(*a, **kw)
+            except AnchorError as e:
+                return _Missing(str(e))
+        return wrapped
+    inh = _lazy(globals()["inh"])
+    timpl = _lazy(globals()["timpl"])
+    blanket = _lazy(globals()["blanket"])
+
     # ---------------- RUN
     add(RUN, "Stage::execute_seq", inh(facts, A.STAGE, "execute_seq"), [("groups", Src(SELF, ["groups"]), {"run_now"}, once)])
     if parallel:
@@ -141,6 +157,9 @@ def check_family(ctx, report, rule, facts, config, families, only=None):
         if family not in families:
             continue
         if only is not None and not only(ident):
+            continue
+        if not hasattr(body, "blocks"):
+            report.ob(rule, "%s/%s/ANCHOR" % (family, ident), False, "anchor not found: %s" % getattr(body, "msg", body), config=config)
             continue
         report.touched(body, config)
         for label, src, names, expect in checks:
